@@ -123,7 +123,11 @@ func setFamilies(code, eq string) {
 }
 
 // ---- generic single-valued map runner ----
+// errCyclic: a collision chain of the table does not end (every API call could loop forever)
+type errCyclic struct{}
+
 type smap[K any] struct {
+	cyclic   func() bool
 	m        mapx.VerifMap[K, int64]
 	mk       func(int64) K
 	un       func(K) int64
@@ -141,6 +145,9 @@ func (s *smap[K]) keys() string {
 }
 
 func (s *smap[K]) obs(ret string) string {
+	if s.cyclic != nil && s.cyclic() {
+		panic(errCyclic{})
+	}
 	vals := s.m.Values()
 	o := ret + "/" + strconv.FormatInt(s.m.Len(), 10) + "/" + s.keys() + "/" + joinInts(vals, ";") + "/"
 	scribble(vals)
@@ -226,13 +233,17 @@ func linkedDump(m *mapx.LinkedMap[hk, int64]) func() string {
 
 // ---- multi map runner ----
 type mmap[K any] struct {
-	m    *mapx.MultiMap[K, int64]
-	mk   func(int64) K
-	un   func(K) int64
-	dump func() string
+	cyclic func() bool
+	m      *mapx.MultiMap[K, int64]
+	mk     func(int64) K
+	un     func(K) int64
+	dump   func() string
 }
 
 func (s *mmap[K]) obs(ret string) string {
+	if s.cyclic != nil && s.cyclic() {
+		panic(errCyclic{})
+	}
 	ks := s.m.Keys()
 	l := make([]int64, len(ks))
 	for i, k := range ks {
@@ -335,7 +346,11 @@ func runHistory(container, code, eq string, ops []string) (line string) {
 	out := make([]string, 0, len(ops))
 	defer func() {
 		if r := recover(); r != nil {
-			out = append(out, "panic")
+			if _, ok := r.(errCyclic); ok {
+				out = append(out, "cyclic-chain") // the history stops: any further call could loop forever
+			} else {
+				out = append(out, "panic")
+			}
 			line = strings.Join(out, "|")
 		}
 	}()
@@ -346,11 +361,11 @@ func runHistory(container, code, eq string, ops []string) (line string) {
 	switch container {
 	case "hash":
 		m := mapx.NewHashMap[hk, int64](4)
-		s := &smap[hk]{m: m, mk: mkH, un: unH, dump: hashDump(m)}
+		s := &smap[hk]{m: m, mk: mkH, un: unH, dump: hashDump(m), cyclic: m.VerifCyclic}
 		step = s.step
 	case "lhm":
 		m := mapx.NewLinkedHashMap[hk, int64](4)
-		s := &smap[hk]{m: m, mk: mkH, un: unH, dump: linkedDump(m), backward: m.VerifBackward}
+		s := &smap[hk]{m: m, mk: mkH, un: unH, dump: linkedDump(m), backward: m.VerifBackward, cyclic: m.VerifCyclic}
 		step = s.step
 	case "ltm":
 		m, err := mapx.NewLinkedTreeMap[int64, int64](cmpInt)
@@ -364,7 +379,7 @@ func runHistory(container, code, eq string, ops []string) (line string) {
 		step = s.step
 	case "mhm":
 		m := mapx.NewMultiHashMap[hk, int64](4)
-		s := &mmap[hk]{m: m, mk: mkH, un: unH, dump: multiDump(m)}
+		s := &mmap[hk]{m: m, mk: mkH, un: unH, dump: multiDump(m), cyclic: m.VerifCyclic}
 		step = s.step
 	case "mtm":
 		m, err := mapx.NewMultiTreeMap[int64, int64](cmpInt)
